@@ -317,6 +317,28 @@ def file_shapes(ctx, lua, rng, count):
             if got.rstrip(b'\n') != code.rstrip(b'\n'):
                 ctx.violation('reading a .p8 file whose Lua section is placed %s changed code bytes' % lname, {'kind': 'file', 'code': code})
                 return
+    # (e) P8SCII byte runs that happen to be the UTF-8 text of a glyph spelling (0xC2 0xA5 looks like the yen sign, 0xE2 0x96 0x88 like
+    # the block glyph ...): in a cart they are two or three P8SCII characters, each with its own spelling
+    looks = []
+    for b in list(range(16, 32)) + list(range(127, 256)):
+        sp = lua.p8scii_to_unicode(bytes([b])).encode('utf-8')
+        if all(c >= 0x80 for c in sp):
+            looks.append(sp)
+    for k in range(0, len(looks), 12):
+        grp = looks[k:k + 12]
+        code = b''.join(b'--' + sp + b'\n' for sp in grp) + b's="' + b''.join(grp[:3]) + b'"\n' + b'--' + grp[0] + b' and ' + grp[-1] + b'\n'
+        ctx.case(code)
+        for entry in ('stream', 'path'):
+            try:
+                back = p8_roundtrip(code, (8, 33)[k % 2], entry)
+            except Exception as e:
+                ctx.violation('.p8 path (%s) raised %r on P8SCII bytes that look like UTF-8 glyph text' % (entry, e), {'kind': 'file', 'code': code})
+                return
+            ctx.monitor('file_roundtrips')
+            ctx.feature('p8scii_runs_that_look_like_utf8_glyphs', len(grp))
+            if back != code:
+                ctx.violation('.p8 path changed code bytes (P8SCII bytes that look like the UTF-8 text of a glyph)', {'kind': 'file', 'code': code})
+                return
     ctx.feature('file_shapes_done')
 
 
@@ -369,7 +391,7 @@ def gates(m, tier):
     if mon.get('file_roundtrips', 0) < 1:
         missed.append('.p8 path never exercised')
     for k in ('file_version_0', 'file_version_33', 'file_entry_stream', 'file_entry_path', 'file_entry_cli', 'history_done', 'file_shapes_done',
-              'line_over_64k_utf8_bytes', 'multiline_token_cases_echo', 'multiline_token_cases_luamin', 'include_cases_p8', 'file_layout_lua_last', 'file_layout_lua_only'):
+              'line_over_64k_utf8_bytes', 'multiline_token_cases_echo', 'multiline_token_cases_luamin', 'include_cases_p8', 'file_layout_lua_last', 'file_layout_lua_only', 'p8scii_runs_that_look_like_utf8_glyphs'):
         if f.get(k, 0) < 1:
             missed.append('%s never seen' % k)
     if mon.get('foreign_conversions', 0) < 20:
